@@ -1584,14 +1584,29 @@ theorem waitLoop_result_out (fuel : Nat) : ∀ (f : Fut) (sched : List Nat) (S :
       · rw [waitLoop_succ_none fuel f f' sched S S1 hp he] at h
         rw [ih f' _ _ r h]; exact hf
 
+theorem Settled.hasWrite {S S' : Store} (h : Settled S S') (w : Write) : HasWrite S'.log w ↔ HasWrite S.log w := by
+  obtain ⟨l, hl, hle⟩ := h.log
+  rw [hl, HasWrite_append]
+  constructor
+  · intro hw
+    rcases hw with hw | hw
+    · exact hw
+    · obtain ⟨p, _, hp⟩ := hle _ hw; cases hp
+  · exact Or.inl
+
+theorem Settled.covered {S S' : Store} (h : Settled S S') {cell : Cell} (hc : Covered S.log cell) : Covered S'.log cell := by
+  obtain ⟨l, hl, _⟩ := h.log
+  obtain ⟨key, v, hm⟩ := hc
+  exact ⟨key, v, by rw [hl]; exact List.mem_append_left _ hm⟩
+
 /-- The serial field loop keeps the log sound and, when it returns the root object, has set every
     slot of every visible object. -/
-theorem execSerial_data (W : List Write) (fuel : Nat) : ∀ (fields : List Field) (n i : Nat) (sched : List Nat) (S : Store),
+theorem execSerial_data (W : List Write) (st : Bool) (fuel : Nat) : ∀ (fields : List Field) (n i : Nat) (sched : List Nat) (S : Store),
     (∀ w ∈ Spec.writesF fields [] i, w ∈ W) → (∀ w, HasWrite S.log w → w ∈ W) →
-    (∀ w, HasWrite (execSerial fuel fields n i sched S).2.2.log w → w ∈ W) ∧
-    (∀ v, (execSerial fuel fields n i sched S).1 = .done (.ok v) →
+    (∀ w, HasWrite (execSerial st fuel fields n i sched S).2.2.log w → w ∈ W) ∧
+    (∀ v, (execSerial st fuel fields n i sched S).1 = .done (.ok v) →
       ∀ cell, (cell ∈ Spec.cellsF fields [] i ∨ Covered S.log cell) →
-        Covered (execSerial fuel fields n i sched S).2.2.log cell) := by
+        Covered (execSerial st fuel fields n i sched S).2.2.log cell) := by
   intro fields
   induction fields with
   | nil =>
@@ -1645,7 +1660,7 @@ theorem execSerial_data (W : List Write) (fuel : Nat) : ∀ (fields : List Field
           rcases a.2 (b2.mp h) with h | h
           · exact hs w h
           · exact inW h
-        rw [execSerial_cons fuel key nn mode rerr c rest n i sched S S1 S2 f0 f hm h1 h2]
+        rw [execSerial_cons st fuel key nn mode rerr c rest n i sched S S1 S2 f0 f hm h1 h2]
         -- everything the wait must cover: the field's own visible slots, plus any slot given as covered
         have hwait : ∀ cell, (cell ∈ (if Spec.descends mode rerr then Spec.cellsC nn c [.key key] else []) ∨ Covered S.log cell) →
             cell ∈ f.owed ∨ Covered S2.log cell := by
@@ -1664,10 +1679,14 @@ theorem execSerial_data (W : List Write) (fuel : Nat) : ∀ (fields : List Field
               · exact Or.inr (a.mono bm)
             · simp [hd] at h
           · exact Or.inr (h.mono hmono)
-        rcases hwl : waitLoop fuel f sched S2 with ⟨w, sched', S3⟩
+        obtain ⟨sched0, S3', hwl, hset, _⟩ := waitSettle_settled st fuel f sched S2
+        rcases hws : waitSettle st fuel f sched S2 with ⟨w, sched', S3⟩
+        rw [hws] at hwl hset
+        simp only at hwl hset
         have hsound3 : ∀ w', HasWrite S3.log w' → w' ∈ W := by
           have := (waitLoop_data W [] fuel f sched S2 (fun w => (hfs w).2) (fun w => (hfs w).1) (by simp)).1
-          rw [hwl] at this; exact this
+          rw [hwl] at this
+          exact fun w' hw' => this w' ((hset.hasWrite w').mp hw')
         cases w with
         | done r =>
           cases r with
@@ -1691,7 +1710,7 @@ theorem execSerial_data (W : List Write) (fuel : Nat) : ∀ (fields : List Field
               have := (waitLoop_data W [cell] fuel f sched S2 (fun w => (hfs w).2) (fun w => (hfs w).1)
                 (by intro c' hc''; simp only [List.mem_singleton] at hc''; subst hc''; exact hwait _ hc')).2
               rw [hwl] at this
-              exact this _ rfl cell (by simp)
+              exact hset.covered (this _ rfl cell (by simp))
             rcases hc with h | h
             · rcases (mem_cellsF_cons _ _ _ _ _ _ _ _ _).mp h with h | h | h
               · subst h; exact Or.inr (Covered.push_write S3 [] i key v)
@@ -1745,9 +1764,9 @@ theorem mutation_log_good (rq : Request) (hq : rq.mutation = true)
   let W := Spec.writesF rq.fields [] 0
   unfold execute at h ⊢
   simp only [hq, if_true] at h ⊢
-  have hdata := execSerial_data W (Field.invocationsL rq.fields + 1) rq.fields rq.fields.length 0 rq.sched {}
+  have hdata := execSerial_data W rq.settle (Field.invocationsL rq.fields + 1) rq.fields rq.fields.length 0 rq.sched {}
     (fun w hw => hw) (fun w hw => by simp [HasWrite] at hw)
-  rcases hx : execSerial (Field.invocationsL rq.fields + 1) rq.fields rq.fields.length 0 rq.sched {} with ⟨w, s', S⟩
+  rcases hx : execSerial rq.settle (Field.invocationsL rq.fields + 1) rq.fields rq.fields.length 0 rq.sched {} with ⟨w, s', S⟩
   rw [hx] at h hdata
   cases w with
   | done r' =>
@@ -1841,9 +1860,9 @@ theorem mutation_data (rq : Request) (hq : rq.mutation = true) (hd : Field.disti
         (∀ cell ∈ Spec.cellsF rq.fields [] 0, Covered (execute rq).2.log cell) := by
       unfold execute at h ⊢
       simp only [hq, if_true] at h ⊢
-      have hdata := execSerial_data W (Field.invocationsL rq.fields + 1) rq.fields rq.fields.length 0 rq.sched {}
+      have hdata := execSerial_data W rq.settle (Field.invocationsL rq.fields + 1) rq.fields rq.fields.length 0 rq.sched {}
         (fun w hw => hw) (fun w hw => by simp [HasWrite] at hw)
-      rcases hx : execSerial (Field.invocationsL rq.fields + 1) rq.fields rq.fields.length 0 rq.sched {} with ⟨w, s', S⟩
+      rcases hx : execSerial rq.settle (Field.invocationsL rq.fields + 1) rq.fields rq.fields.length 0 rq.sched {} with ⟨w, s', S⟩
       rw [hx] at h hdata
       cases w with
       | done r' =>
